@@ -334,7 +334,27 @@ def last_rule(prog, rep, rule="LAST", stream_assumption=False):
     # sqlite
     rl = _site(prog, "replace_last", "update", "events")
     ge = _site(prog, "get_events", "select", "events")
-    if len(rl) != 1 or len(ge) != 1:
+    deleg = None
+    if not rl and len(ge) == 1:
+        # delegation: the target is what a limit-1 read of the same bucket returns, rewritten through replace()
+        rfi0 = prog.func("SqliteStorage.replace_last")
+        reads = [n for n in walk_own(rfi0.node) if isinstance(n, ast.Assign) and isinstance(n.value, ast.Call) and norm(n.value.func) == "self.get_events" and isinstance(n.targets[0], ast.Name)]
+        reps = [n for n in walk_own(rfi0.node) if isinstance(n, ast.Call) and norm(n.func) == "self.replace"]
+        if len(reads) == 1 and len(reps) == 1 and len(reps[0].args) == 3:
+            rd, rp = reads[0].value, reps[0]
+            v = reads[0].targets[0].id
+            a = {["bucket_id", "limit", "starttime", "endtime"][i]: x for i, x in enumerate(rd.args) if i < 4}
+            a.update({k.arg: k.value for k in rd.keywords if k.arg})
+            lim = const_value(a.get("limit"), rfi0, prog) if a.get("limit") is not None else None
+            ok = lim == 1 and "starttime" not in a and "endtime" not in a and is_param_ref(a.get("bucket_id"), rfi0, rfi0.params[1]) and is_param_ref(rp.args[0], rfi0, rfi0.params[1]) and norm(rp.args[1]) == f"{v}[0].id" and is_param_ref(rp.args[2], rfi0, rfi0.params[2])
+            deleg = ok
+            rep.check(ok, rule, rfi0.short, "target selection", "self.replace(bucket, self.get_events(bucket, 1)[0].id, event)", f"replace_last delegates as `{norm(reads[0])}; {norm(rp)}`: the rewritten event is not the one a limit-1 read of this bucket returns", rfi0.loc(rp))
+            if stream_assumption and ge[0].stmt.order:
+                key = ge[0].stmt.order[0][0]
+                rep.check(key == "starttime", rule + "-KEY", ge[0].fi.short, "order key", "limit-1 read keyed on the start instant", f"limit-1 read keyed on `{key}`: end instants tie in heartbeat streams, so 'newest' is ambiguous", ge[0].loc())
+    if deleg is not None:
+        pass
+    elif len(rl) != 1 or len(ge) != 1:
         rep.undecided(rule, "SqliteStorage.replace_last", "UPDATE events", f"{len(rl)} UPDATE / {len(ge)} SELECT statements")
     else:
         u, g = rl[0], ge[0]
@@ -656,9 +676,10 @@ def pred_sqlite(prog, rep, rule="PRED", scale_expected=1000000):
             rep.check(scale == scale_expected, "CODEC", fn, f"scale of ?{other.index}", f"window edge scaled by {scale}", f"window edge `{p}` is scaled by {scale} but rows are written with {scale_expected}", s.loc())
             # neutral sentinel when the edge is absent
             if lit.form.coef(wf and (W_START if p == "starttime" else W_END)) != 0:
-                # ev.x >= sentinel (lower bound) needs sentinel <= 0; ev.x <= sentinel (upper) needs sentinel >= 2**62
+                # ev.x >= sentinel (lower bound) needs sentinel <= 0; ev.x <= sentinel (upper) needs sentinel >= the largest
+                # instant a datetime can hold (year 9999), scaled as the column is
                 lower = (op in (">", ">="))
-                oks = sent is not None and ((lower and sent <= 0) or (not lower and sent >= 2**62))
+                oks = sent is not None and ((lower and sent <= 0) or (not lower and scale is not None and sent >= 253402300800 * scale))
                 rep.check(oks, rule, fn, f"sentinel of ?{other.index}", f"absent edge binds neutral {sent}", f"when `{p}` is not given the placeholder is bound to {sent}, which is not neutral for `{c.text()}`: events are filtered although no edge was asked for", s.loc())
         out[m] = found
         if not bad:
